@@ -31,6 +31,9 @@ RULE = (
     "exception is injected after operation i for every i in 0..k, and rollback() is called explicitly once; the zone's deep "
     "fingerprint must be unchanged and a new writer must open. Distinct by (zone class, relativize, op, arg form, name form, outcome)."
 )
+RULE += " " + (
+    "Also: replacement transactions (writer(True)) from an empty model, with abort points."
+)
 ASSUMPTIONS = [
     "reference model B1 in this file (DESIGN.md Appendix B1); names inside RDATA follow the zone's relativization",
     "content comparison uses the canonical view {owner: {(type, covers): (ttl, set of rdata wire against the origin)}}",
